@@ -11,7 +11,7 @@ git -C /repo worktree add -q --detach "$wt" HEAD || exit 9
 trap 'git -C /repo worktree remove --force "$wt"' EXIT
 demo_path=$(python3 -c "import json;print(json.load(open('$d/meta.json'))['demo_path'])")
 demo_cmd=$(python3 -c "import json;print(json.load(open('$d/meta.json'))['demo_cmd'])")
-demo_cmd=$(echo "$demo_cmd" | grep -oE "go test .*$" | head -1)
+demo_cmd=$(echo "$demo_cmd" | grep -oE "go test [^(;&]*" | head -1)
 log=/verif/run/confirm-$name.log; mkdir -p /verif/run; : > $log
 cp "$d/demo_test.go" "$wt/$demo_path"
 echo "## demo on unchanged: $demo_cmd" >> $log
